@@ -519,6 +519,7 @@ async fn watch_membership_changes(
     membership_changes_tx: watch::Sender<MembershipChange>,
 ) {
     let mut last_network_set = BTreeSet::new();
+    let mut last_members = BTreeMap::new();
     while let Some(members) = changes.next().await {
         info!(
             self_node_id = %self_node_id,
@@ -557,8 +558,10 @@ async fn watch_membership_changes(
 
             network.disconnect(*addr);
 
-            if let Some(member) = members.get(node_id) {
-                membership_changes.left.push(member.clone());
+            // The node is gone from (or has a new address in) the new snapshot, so the
+            // member it used to be is only found in the previous one.
+            if let Some(member) = last_members.get(node_id) {
+                membership_changes.left.push(ClusterMember::clone(member));
             }
         }
 
@@ -578,6 +581,7 @@ async fn watch_membership_changes(
 
         let _ = membership_changes_tx.send(membership_changes);
         last_network_set = new_network_set;
+        last_members = members;
     }
 }
 
